@@ -222,7 +222,7 @@ func runC07(c *Ctx) {
 	}
 
 	// ---- C07.R: a failed fetch surfaces as an error, never as (nil response, nil error)
-	c.Rule("C07.R", "fetch helper: the error returned with a possibly-nil response comes from the same client.Do call; the forwarder is bound to the uncancellable fetched request", 2)
+	c.Rule("C07.R", "fetch helper: the error returned with a possibly-nil response comes from the same client.Do call; the forwarder is bound to the uncancellable fetched request", 3)
 	if f := c.need(p, "C07.R", "agent/utils.getRequestWithRetries"); f != nil {
 		do := c.UniqueCall("C07.R", p, f, false, "(*net/http.Client).Do")
 		if do != nil {
@@ -273,6 +273,14 @@ func runC07(c *Ctx) {
 	if f := c.need(p, "C07.R", "agent.forwardRequest"); f != nil {
 		if g := c.UniqueCall("C07.R", p, f, false, ModPath+"/agent/utils.NewResponseForwarder"); g != nil {
 			c.ArgIs("C07.R", "forwarder:bound-to-fetched-request", p, g, 4, "the response forwarder watches the context of the fetched request itself (never cancelled by the agent), so an error answer (502) produced after a backend failure is still published", P(f, 2)+".Contents")
+			// … and that field still holds the fetched request: forwardRequest does not replace it
+			// (request.Contents = request.Contents.WithContext(<a context with a deadline>) would make the
+			// serialiser give up when the deadline fires, before the 502 of a stuck backend is published)
+			repl := ""
+			for _, st := range StoresToField(WithClosures(f), "agent/utils.ForwardedRequest", "Contents") {
+				repl = p.Pos(st.Pos())
+			}
+			c.Check("C07.R", "forwarder:fetched-request-not-replaced", p, g.Pos(), repl == "", "forwardRequest does not overwrite request.Contents", "forwardRequest overwrites request.Contents at "+repl+" (e.g. with a copy that carries a deadline): the response forwarder is bound to that object, stops serialising when its context ends and the 502 of an unreachable backend is never uploaded")
 		}
 	}
 
